@@ -16,6 +16,14 @@ type DB struct {
 func Open(filename string) (*DB, error) {
 	db, err := sdb.OpenFile(filename)
 	if err != nil {
+		if db != nil {
+			// Don't leave the file open: the garbage collector would close
+			// the descriptor at some later moment, and closing any
+			// descriptor of a file drops every POSIX lock this process
+			// holds on it - also the read lock of another handle that is in
+			// the middle of a scan.
+			db.Close()
+		}
 		return nil, err
 	}
 	return &DB{
